@@ -335,13 +335,13 @@ func diffInstalled(in []Entry, name string, b *Built) []problem {
 
 // ---- operations ------------------------------------------------------------------------
 
-var extraPool = []string{"LICENSE", "a.txt", "lib.so", "notes", "zzz.txt"} // the last two sort after notation-*
+var extraPool = []string{"LICENSE", "a.txt", "lib.so", "notes", "zzz.txt", ".release", ".DS_Store", "~backup", "README.md~"} // notes, zzz.txt and ~backup sort after notation-*; dot files are regular files like any other
 var subdirPool = []string{"lib", srcDirName, "zsub"}                       // before / same name as the source dir / after
 var nestedPool = []string{"nested.txt", "LICENSE", "zzz.txt", "inner/deep.txt", "a.txt"}
 var linkPool = []string{"alink", "zlinkdir", "dangling", "mlink"}
 
 func genDirShape(rt *rapid.T, s *Src, allowSameNamedCandidate bool) {
-	mask := rapid.IntRange(0, 31).Draw(rt, "extras")
+	mask := rapid.IntRange(0, 1<<len(extraPool)-1).Draw(rt, "extras")
 	for i, e := range extraPool {
 		if mask&(1<<i) != 0 {
 			s.Extras = append(s.Extras, e)
